@@ -127,9 +127,12 @@ def _run_job_wrapped(args):
     import importlib
     mod = importlib.import_module(modname)
     try:
+        t0 = time.time()
         part = mod.run_job(job)
         if part.state_keys is not None:
             part.states = len(part.state_keys)
+        if os.environ.get('VERIF_PROFILE'):
+            part.notes['job_times'] = [(round(time.time() - t0, 1), part.evaluations, repr(job)[:150])]
         return part
     except BaseException:
         part = Part()
@@ -193,6 +196,8 @@ def finish(pid, tier, seed, level, total, wall, rule, assumptions, extra=None):
     """Triage violations, write evidence, print verdict lines, return exit code."""
     known = load_known(pid)
     harness_errors = total.notes.pop('harness_errors', [])
+    for jt in sorted(total.notes.pop('job_times', []), reverse=True)[:12]:
+        print('JOBTIME', jt)
     fresh = []
     known_hit = {}
     for v in sorted(total.violations, key=lambda v: str(v['key'])):
